@@ -320,6 +320,7 @@ async fn conn_task(host: String, mut s: TcpStream) {
             }
         }
         let seq = simcore::log::world(|| format!("mock.msg {} pid {} {} {}", host, pid, m.ty as char, m.body.len()));
+        let msg_us = simcore::clock::now_us();
         let mbytes = m.bytes();
         {
             let mut h = HIST.lock();
@@ -413,7 +414,7 @@ async fn conn_task(host: String, mut s: TcpStream) {
                 let mut sh = simcore::rng::fnv(host.as_bytes()) ^ (rec.snap.txn as u64) << 8 ^ (rec.tags.first().map(|t| t.c as u64).unwrap_or(0)) << 16;
                 sh ^= (rec.snap.in_copy as u64) << 40 ^ (rec.snap.gucs.len() as u64) << 44 ^ (rec.snap.prepared.len() as u64) << 52;
                 h.state_hashes.insert(sh);
-                h.stmts.push(StmtEntry { conn: conn_idx, rec, us, bans: bans.clone() });
+                h.stmts.push(StmtEntry { conn: conn_idx, rec, us, start_us: msg_us, bans: bans.clone() });
                 let si = h.stmts.len() - 1;
                 if let Some(u) = h.backend_conns[conn_idx].units.last_mut() {
                     u.stmt_idx.push(si);
